@@ -194,6 +194,7 @@ def judge_programs(ck, progs, props, tag, describe=None, max_report=12, confirm=
     ck.add("traces_validated_against_impl", stats["cases"])
     ck.add("trace_events", stats["events"])
     ck.add("judge_states", stats["tlc_states"])
+    ck.add("spec_drift", stats.get("drift", 0))
     harness = [v for v in verdicts if v["prop"] == "HARNESS"]
     if harness:
         raise HarnessError("trace judge reported harness inconsistencies: %s" % harness[:5])
